@@ -232,6 +232,13 @@ fn judge_tree(e: &E, family: &str, coord: serde_json::Value, l: &mut Local) {
     let min = e.print(false);
     let full = e.print(true);
     match &expected {
+        Err(RErr::Unspec(why)) if why.contains("C19") => {
+            // magnitudes that make the subject run bit-by-bit loops over millions of bits belong to C19 (resource
+            // limits); they are not executed here
+            l.unspecified += 1;
+            l.count("not_executed_magnitude_belongs_to_C19", 1);
+            return;
+        }
         Err(RErr::Unspec(_)) | Err(RErr::Constraint) => l.unspecified += 1,
         Ok(_) => {
             l.class("defined-value");
@@ -675,15 +682,18 @@ pub fn run(ctx: &Ctx) -> Report {
     ];
 
     if ctx.thorough {
-        // E: complete depth-2 binary trees: op(d1, d1) over the small alphabet
+        // E: depth-2 binary trees with two non-leaf children: op(d1 over 7 leaves, d1 over 3 leaves), both orders
+        let d1_t = depth1(&lt);
         let s = d1_small.len() as u64;
-        let n = 19 * s * s;
+        let t = d1_t.len() as u64;
+        let n = 19 * s * t * 2;
         rep.absorb(par_run(n, |i, l| {
-            let d = decode(i, &[s, s, 19]);
-            let e = E::bin(ALL_BIN[d[2] as usize], d1_small[d[0] as usize].clone(), d1_small[d[1] as usize].clone());
-            judge_tree(&e, "d2-bin-full", json!(i), l)
+            let d = decode(i, &[s, t, 2, 19]);
+            let (a, b) = (d1_small[d[0] as usize].clone(), d1_t[d[1] as usize].clone());
+            let e = if d[2] == 0 { E::bin(ALL_BIN[d[3] as usize], a, b) } else { E::bin(ALL_BIN[d[3] as usize], b, a) };
+            judge_tree(&e, "d2-bin-two-deep-children", json!(i), l)
         }));
-        levels.push(json!({"family": "complete depth-2 binary trees op(d1,d1), 7 leaves", "trees": n}));
+        levels.push(json!({"family": "depth-2 binary trees op(d1 over 7 leaves, d1 over 3 leaves), both orders", "trees": n}));
         // F: depth 3 = one depth-2 (binary of depth-1, tiny alphabet) child in every position
         let d1_tiny = depth1(&lt);
         let mut d2_tiny = vec![];
@@ -715,7 +725,7 @@ pub fn run(ctx: &Ctx) -> Report {
         }
     }
     rep.extra("levels", json!(levels));
-    rep.extra("depth_completed", json!(if ctx.thorough { "all trees of depth<=1 (23 leaves); all depth-2 trees with one non-leaf child and all binary depth-2 trees (7 leaves); depth-3 trees with a single depth-2 spine (3 leaves); chains to depth 6. The quantifier's depth 6 over everything is not reachable." } else { "all trees of depth<=1 (23 leaves); all depth-2 trees with one non-leaf child (7 leaves), which contains every ordered operator pair; chains to depth 6" }));
+    rep.extra("depth_completed", json!(if ctx.thorough { "all trees of depth<=1 (23 leaves); all depth-2 trees with one non-leaf child (7 leaves) and binary depth-2 trees with two non-leaf children (7 x 3 leaves); depth-3 trees with a single depth-2 spine (3 leaves); chains to depth 6. The quantifier's depth 6 over everything is not reachable." } else { "all trees of depth<=1 (23 leaves); all depth-2 trees with one non-leaf child (7 leaves), which contains every ordered operator pair; chains to depth 6" }));
     rep.local.states.insert(0);
     rep.local.states.extend(rep.local.nontrivial.iter().copied());
     rep.local.transitions = rep.local.evaluations;
